@@ -22,9 +22,11 @@ def oracle_c16(ctx, qib, fields, ev, cases):
 def run(ctx):
     ctx.rules.append("instances as in C01; is_hermitian() / num_wires / shape vs the generated constants, as_matrix() vs the generated "
                      "template (2^-40 / exact); oracle on the implementation: is_hermitian() => ||U - U^dag|| <= 1e-9 on every instance. "
-                     "non-trivial = constant gate or non-zero parameter")
+                     "non-trivial = a gate that CLAIMS to be Hermitian (constant gate or non-zero parameter); "
+                     "instances answering False are vacuous for soundness and only validate the flag correspondence")
     G.sweep(ctx, "C16", oracle_c16)
     G.run_composite(ctx, "C16")
+    G.second_opinion(ctx, ["Prop_C16", "Prop_C16c", "Prop_C16p"])
 
 
 def replay(ctx, data):
